@@ -39,6 +39,9 @@ CONSTANTS MaxCols,      \* bind metadata has 1..MaxCols columns
                         \*      "keys_first" (the usual layout), "clustering_first", "clustering_between" (after the
                         \*      first partition key column; needs two of them).  The table is PRIMARY KEY ((k1..kn), ck)
                         \*      whatever the declaration order, and so is the partition key Cassandra hashes.
+          MPairTypes,   \* C38: key types for which TWO statements on one model are enumerated whose key values compare
+                        \*      EQUAL in Python but are different values for Cassandra (different bytes, hence different
+                        \*      partitions): decimal 1.0 / 1.00 (scale), float and double 0.0 / -0.0 (sign of zero)
           MLayoutMaxPk  \* C38: the unusual layouts are enumerated for models with up to this many partition key columns
 
 -----------------------------------------------------------------------------
@@ -216,15 +219,40 @@ CkType(tys, layout) ==
 
 NMVals(ty) == IF MFull /\ ty \in {"int", "text", "blob"} THEN 3 ELSE 2
 
-MapperInit ==
+\* Values that are equal for Python and distinct for Cassandra.  The encodings are written out (s); i only numbers
+\* the variant.  decimal: 4-byte scale ++ unscaled varint; float / double: IEEE 754 big-endian.
+PairVal(ty, a) ==
+    CASE ty = "decimal" -> IF a = 1 THEN V(1, <<0, 0, 0, 1, 10>>) ELSE V(2, <<0, 0, 0, 2, 100>>)          \* 1.0 / 1.00
+      [] ty = "double"  -> IF a = 1 THEN V(1, <<0, 0, 0, 0, 0, 0, 0, 0>>) ELSE V(2, <<128, 0, 0, 0, 0, 0, 0, 0>>)   \* 0.0 / -0.0
+      [] ty = "float"   -> IF a = 1 THEN V(1, <<0, 0, 0, 0>>) ELSE V(2, <<128, 0, 0, 0>>)
+
+MapperKey(tys, vals) == RK("bytes", KeyBytes([i \in 1..Len(tys) |-> Enc(tys[i], vals[i])]))
+
+\* An ordinary case: one statement (case.before = <<>>: what ran on the model before is not part of the case)
+MapperSingle ==
     \E k \in 1..MMaxPk : \E tys \in [1..k -> MTypes] : \E vs \in [1..k -> 1..3] : \E op \in MOps : \E ord \in MOrders :
     \E lay \in MLayouts :
        /\ \A i \in 1..k : vs[i] <= NMVals(tys[i])
        /\ (lay # "keys_first" => k <= MLayoutMaxPk)
        /\ (lay = "clustering_between" => k >= 2)
        /\ case = [prop |-> "C38", tys |-> tys, vals |-> [i \in 1..k |-> MVal(tys[i], vs[i])], op |-> op, order |-> ord,
-                  layout |-> lay, ckty |-> CkType(tys, lay)]
-       /\ out = [rk |-> RK("bytes", KeyBytes([i \in 1..k |-> Enc(tys[i], MVal(tys[i], vs[i]))]))]
+                  layout |-> lay, ckty |-> CkType(tys, lay), before |-> <<>>]
+       /\ out = [rk |-> MapperKey(tys, [i \in 1..k |-> MVal(tys[i], vs[i])]), rkBefore |-> RK("none", <<>>)]
+
+\* A pair: the statement of the case is preceded, on the same model and through the same operation, by one whose key
+\* values (case.before) are equal in Python and different for Cassandra - alone or as a component of a composite key.
+\* Each statement carries the key of ITS values.
+MapperPair ==
+    \E pt \in MPairTypes : \E shape \in {"alone", "first", "second"} : \E a \in 1..2 : \E op \in MOps : \E ord \in MOrders :
+       LET other == MVal("int", 1)
+           tys  == CASE shape = "alone" -> <<pt>> [] shape = "first" -> <<pt, "int">> [] OTHER -> <<"int", pt>>
+           mk(x) == CASE shape = "alone" -> <<PairVal(pt, x)>> [] shape = "first" -> <<PairVal(pt, x), other>>
+                      [] OTHER -> <<other, PairVal(pt, x)>>
+       IN /\ case = [prop |-> "C38", tys |-> tys, vals |-> mk(a), op |-> op, order |-> ord,
+                     layout |-> "keys_first", ckty |-> CkType(tys, "keys_first"), before |-> mk(3 - a)]
+          /\ out = [rk |-> MapperKey(tys, mk(a)), rkBefore |-> MapperKey(tys, mk(3 - a))]
+
+MapperInit == MapperSingle \/ MapperPair
 
 Next == UNCHANGED vars          \* the cases are the initial states
 Spec == Init /\ [][Next]_vars
@@ -277,6 +305,9 @@ MapperKeyIsComposite ==
         parts == [i \in 1..k |-> Enc(case.tys[i], case.vals[i])] IN
     IF k = 1 THEN out.rk.b = parts[1] ELSE SplitComposite(out.rk.b) = parts
 
+\* equal for Python is not equal for Cassandra: the two statements of a pair address different partitions
+PairKeysDiffer == case.before # <<>> => out.rk # out.rkBefore
+
 \* vacuity witnesses (each must be VIOLATED)
 Witness_PaddedUnset == ~(IsSeq /\ out.accept /\ Len(case.ents) < case.n /\ Len(out.slots) = case.n)
 Witness_KeyOrderNotMarkerOrder == ~(out.accept /\ out.rk.t = "bytes" /\ Len(case.pk) >= 2 /\ case.pk[1] > case.pk[2])
@@ -288,6 +319,8 @@ Witness_EmptyInComposite == ~(out.accept /\ out.rk.t = "bytes" /\ Len(case.pk) >
 Witness_FalsySingleKey == ~(Len(case.tys) = 1 /\ Falsy(case.tys[1], case.vals[1]))
 Witness_FalsyInComposite == ~(Len(case.tys) >= 2 /\ \E i \in 1..Len(case.tys) : Falsy(case.tys[i], case.vals[i])
                                                   /\ \E j \in 1..Len(case.tys) : ~Falsy(case.tys[j], case.vals[j]))
+Witness_PairAlone == ~(case.before # <<>> /\ Len(case.tys) = 1)
+Witness_PairInComposite == ~(case.before # <<>> /\ Len(case.tys) = 2)
 Witness_ClusteringDeclaredFirst == ~(case.layout = "clustering_first" /\ case.ckty # case.tys[1])
 Witness_ClusteringDeclaredBetween == ~(case.layout = "clustering_between" /\ case.ckty # case.tys[2])
 Witness_MapperComposite == ~(Len(case.tys) >= 2)
